@@ -17,7 +17,7 @@ from copsim.seams import RngRecorder
 PROPERTY = 'C09'
 LEVEL = 'exploration'
 TIERS = {
-    'quick': {'runs': 1400, 'wall': 70, 'batch': 8},
+    'quick': {'runs': 1100, 'wall': 70, 'batch': 8},
     'thorough': {'runs': 60000, 'wall': 840, 'batch': 8},
 }
 RULE = ('Each run = one Clayton/Frank/Gumbel model (theta assigned from tau on a grid or at '
@@ -62,14 +62,22 @@ def generate(rng, tier, idx):
         if fam != 'Clayton' and n == big and tier != 'thorough' and rng.random() < 0.5:
             n = 2000
         ops.append({'op': 'sample', 'n': n})
+    if rng.random() < 0.2:
+        # many tiny calls: whole-batch shortcuts in the inverse (all rows degenerate, ...) only
+        # trigger when a batch has one or two rows
+        ops.append({'op': 'burst', 'k': rng.choice([20, 40]), 'n': rng.choice([1, 1, 2])})
     if rng.random() < 0.3:
         # history: the same instance is re-parameterised in place (as the vine code does with
         # ``copula.theta = ...``) and sampled again
         t2 = rng.choice(TAU_GRID)
         if fam == 'Frank' and rng.random() < 0.5:
             t2 = -t2
-        ops.append({'op': 'reparam', 'tau': t2, 'how': rng.choice(['assign', 'compute'])})
-        ops.append({'op': 'sample', 'n': rng.choice([10, 500, 2000])})
+        op_r = {'op': 'reparam', 'tau': t2, 'how': rng.choice(['assign', 'compute'])}
+        if fam == 'Frank' and rng.random() < 0.4:
+            op_r['mirror'] = True         # exactly the mirrored dependence of the current model
+            op_r['how'] = 'compute'
+        ops.append(op_r)
+        ops.append({'op': 'sample', 'n': rng.choice([10, 2000, 2000])})
     if fam != 'Frank' and rng.random() < 0.15:
         # history: a refit on data the family refuses (negative dependence); the caller keeps
         # the object.  Whatever the object does afterwards, a sample it returns must obey the
@@ -79,7 +87,9 @@ def generate(rng, tier, idx):
                                                     'seed': rng.randrange(2**31)}})
         ops.append({'op': 'sample', 'n': 2000, 'may_refuse': True})
     run = {'family': fam, 'tau': tau, 'how': how, 'seed': zoo.rand_seedspec(rng),
-           'g0': rng.randrange(2**31), 'ops': ops}
+           'g0': rng.randrange(2**31), 'ops': ops,
+           # theta from the model's own calibration routine instead of the reference map
+           'via_compute': rng.random() < 0.4}
     if how == 'fit':
         run['fit_data'] = {'kind': 'pobs', 'n': rng.randint(150, 400), 'tau': tau,
                            'seed': rng.randrange(2**31)}
@@ -148,7 +158,10 @@ def _build(run, ctx):
         model.theta = np.float64(model.compute_theta())
     else:
         model.tau = run['tau']
-        model.theta = refs.theta_of_tau(fam, run['tau'])
+        if run.get('via_compute') and run['tau'] != 0:
+            model.theta = model.compute_theta()
+        else:
+            model.theta = refs.theta_of_tau(fam, run['tau'])
     return model, fam
 
 
@@ -263,14 +276,14 @@ def execute(run):
             np.random.seed(op['s'] % (2**32))
             ctx.faults['F5_foreign_reseed'] += 1
         elif op['op'] == 'reparam':
-            model.tau = op['tau']
+            model.tau = -float(model.tau) if op.get('mirror') else op['tau']
             if op['how'] == 'compute':
                 model.theta = model.compute_theta()
             else:
                 model.theta = refs.theta_of_tau(fam, op['tau'])
             tb = '%+.1f' % (round(float(model.tau) * 5) / 5.0)
             ctx.probes['reparameterised_in_place'] += 1
-            ctx.event('reparam', op['tau'], float(model.theta))
+            ctx.event('reparam', float(model.tau), float(model.theta))
         elif op['op'] == 'refit_refused':
             X = zoo.gen_data(op['data'])
             o = outcome(model.fit, X)
@@ -278,6 +291,15 @@ def execute(run):
             ctx.event('refit_refused', outcome_class(o))
             if model.theta is None or model.tau is None:
                 break
+        elif op['op'] == 'burst':
+            for _ in range(op['k']):
+                proto = _check_call(ctx, run, model, fam, op['n'], subject,
+                                    run.get('how') == 'param_numpy')
+                if proto in ('raised', 'badshape', 'badrange', 'refused') or ctx.violations:
+                    break
+            ctx.nontrivial = True
+            ctx.probes['burst_of_tiny_calls'] += 1
+            ctx.event('burst', op['k'], op['n'], proto, state_digest())
         elif op['op'] == 'sample':
             n = op['n']
             proto = _check_call(ctx, run, model, fam, n, subject, op.get('may_refuse', False))
